@@ -102,7 +102,7 @@ def run_process(seed, specs, tmpdir, tag):
     spec_path = os.path.join(tmpdir, f"{tag}.spec.json")
     out_path = os.path.join(tmpdir, f"{tag}.out.json")
     json.dump(specs, open(spec_path, "w"))
-    env = dict(os.environ, PYTHONHASHSEED=str(seed), PYTHONDONTWRITEBYTECODE="1", PYTHONPATH=ROOT)
+    env = dict(os.environ, PYTHONHASHSEED=str(seed), PYTHONDONTWRITEBYTECODE="1", PYTHONPATH=(os.environ["VERIF_REPO"] + os.pathsep + ROOT) if os.environ.get("VERIF_REPO") else ROOT)
     return subprocess.Popen([sys.executable, "-m", "vlib.procmatrix", spec_path, out_path], env=env, cwd=ROOT,
                             stdout=subprocess.DEVNULL, stderr=subprocess.PIPE), out_path
 
